@@ -12,6 +12,9 @@ import (
 	"fmt"
 	"go/ast"
 	"go/token"
+	"os"
+	"path/filepath"
+	"regexp"
 	"strconv"
 	"strings"
 )
@@ -53,6 +56,39 @@ type evmTx struct {
 	arity    int
 	byteVars []string // inside a byte-wise loop: the indexed words, in order of first use
 	loopVar  string
+	file     *ast.File // vm/contract.go, for package-level big.Int variables
+	dir      string    // its directory (the package)
+}
+
+// pkgBig resolves a package-level `var name = <big.Int expression>` of contract.go to the Lean term of its
+// initialiser, provided nothing in the package writes to the variable (no `name.M(..)`, `name = ..`, `&name`).
+func (t *evmTx) pkgBig(name string) (ev, bool) {
+	for _, d := range t.file.Decls {
+		gd, ok := d.(*ast.GenDecl)
+		if !ok || gd.Tok != token.VAR {
+			continue
+		}
+		for _, sp := range gd.Specs {
+			vs := sp.(*ast.ValueSpec)
+			if len(vs.Names) != 1 || len(vs.Values) != 1 || vs.Names[0].Name != name {
+				continue
+			}
+			files, _ := filepath.Glob(filepath.Join(t.dir, "*.go"))
+			written := regexp.MustCompile(`(&|\b)` + name + `\s*(\.|=[^=]|\+\+|--|[-+*/%&|^]=)`)
+			for _, f := range files {
+				b, _ := os.ReadFile(f)
+				if n := len(written.FindAll(b, -1)); n > 1 || (n == 1 && !strings.HasSuffix(f, "contract.go")) {
+					return ev{}, false // more than the declaration itself
+				}
+			}
+			if strings.Contains(src(t.fset, vs.Values[0]), "stack.") {
+				return ev{}, false
+			}
+			v, _, _ := t.expr(vs.Values[0], &evState{vars: map[string]string{}})
+			return v, v.kind == "big"
+		}
+	}
+	return ev{}, false
 }
 
 func (t *evmTx) fail(n ast.Node, why string) {
@@ -89,6 +125,9 @@ func (t *evmTx) expr(e ast.Expr, s *evState) (v ev, mut string, push bool) {
 		}
 		if c, ok := evmConsts[x.Name]; ok {
 			return c, "", false
+		}
+		if v, ok := t.pkgBig(x.Name); ok {
+			return v, "", false
 		}
 	case *ast.BasicLit:
 		if x.Kind == token.INT {
@@ -229,6 +268,12 @@ func (t *evmTx) expr(e ast.Expr, s *evState) (v ev, mut string, push bool) {
 		case m == "Exp" && n == 3 && src(t.fset, x.Args[2]) == "nil":
 			a, b := big2()
 			return ev{"(bigExp " + a + " " + b + ")", "big"}, mut, false
+		case m == "Exp" && n == 3: // modular; a negative exponent (modular inverse) is outside the model: `none`
+			a, b := big2()
+			t.fallible = true
+			return ev{"bigExpMod " + a + " " + b + " " + arg(x.Args[2], "big"), "?big"}, mut, false
+		case m == "IsUint64" && n == 0 && recv.term != "":
+			return ev{"(bigIsUint64 " + recv.term + " = true)", "bool"}, "", false
 		case (m == "Lsh" || m == "Rsh") && n == 2:
 			return ev{"(big" + m + " " + arg(x.Args[0], "big") + " " + arg(x.Args[1], "u64", "const") + ")", "big"}, mut, false
 		case m == "SetInt64" && n == 1:
@@ -415,7 +460,7 @@ func genEVM(fc *fileCache) {
 							panic(r)
 						}
 					}()
-					t = &evmTx{fset: fc.fset, opt: opt, arity: -1}
+					t = &evmTx{fset: fc.fset, opt: opt, arity: -1, file: fc.get(file), dir: filepath.Join(*repo, filepath.Dir(file))}
 					out = t.seq(cc.Body, evState{vars: map[string]string{}}, "  ")
 					return
 				}
